@@ -5,7 +5,7 @@ From Coq Require Import ZArith Reals Floats Bool.
 From Flocq Require Import Core BinarySingleNaN PrimFloat.
 From Coquelicot Require Import Complex.
 From PB Require Import Proofs.TwoSumExact Model.Phase2 Proofs.Floor Proofs.DayFrac Proofs.DayFrac3 Proofs.PhaseAdd Proofs.PhaseMore
-  Proofs.DayFracTail Proofs.DayFracFold Proofs.TwoProduct Proofs.PhaseMul Proofs.PhaseAbs Proofs.PhaseDiv Model.PhaseOrd Model.PhaseDivmod Proofs.PhaseArgmin Proofs.PhaseDivmodProofs Proofs.PhaseDivmodFloor Proofs.FmodSpec Proofs.FloorDivSpec Proofs.PhaseDivmodFinal Gen.GenPhase Proofs.PhaseGen Gen.GenPhaseOrd Proofs.PhaseOrdGen.
+  Proofs.DayFracTail Proofs.FoldHalf Proofs.DayFracFold Proofs.TwoProduct Proofs.PhaseMul Proofs.PhaseAbs Proofs.PhaseDiv Model.PhaseOrd Model.PhaseDivmod Proofs.PhaseArgmin Proofs.PhaseDivmodProofs Proofs.PhaseDivmodFloor Proofs.FmodSpec Proofs.FloorDivSpec Proofs.PhaseDivmodFinal Gen.GenPhase Proofs.PhaseGen Gen.GenPhaseOrd Proofs.PhaseOrdGen.
 Open Scope R_scope.
 Notation fexp := (FLT_exp (-1074) 53).
 Notation rnd := (round radix2 fexp ZnearestE).
@@ -236,6 +236,21 @@ Proof. exact (fun p => conj (op_neg_generated p) (conj (op_pos_generated p) (op_
 Theorem C07_generated_divmod : forall (p : ph) (d : PrimFloat.float), op_divmod p d = gen_divmod p d.
 Proof. exact op_divmod_generated. Qed.
 
+(* the closing fold of day_frac is needed: the computation WITHOUT it (day_frac as it stood before repair D25) returns, on the pair that
+   (-3.5000000000000004) / 7 hands to its tail, count 0 and a fraction below -1/2; with it, (-1, a fraction in [-1/2, 1/2]) *)
+Theorem C07_unfolded_refuted :
+  let s := (-0x1.0000000000001p-1)%float in let e := 0x1.b6db6db6db6dbp-55%float in
+  (snd (df_tail0 s e) <? - 0.5)%float = true /\ (fst (df_tail0 s e) =? 0)%float = true /\
+  (- 0.5 <=? snd (df_tail s e))%float = true /\ (snd (df_tail s e) <=? 0.5)%float = true /\ (fst (df_tail s e) =? - 1)%float = true.
+Proof. exact df_tail0_refuted. Qed.
+(* the fold itself: exact, value preserving, and the fraction ends in [-1/2, 1/2] *)
+Theorem C07_fold : forall (d f : PrimFloat.float) (k : Z),
+  fin d -> fin f -> R_of d = IZR k -> (Z.abs k <= 2 ^ 53 - 1)%Z -> Rabs (R_of f) <= / 2 + bpow radix2 (-50) ->
+  let '(d', f') := fold_half d f in
+  fin d' /\ fin f' /\ (exists k' : Z, R_of d' = IZR k' /\ (Z.abs (k' - k) <= 1)%Z) /\
+  R_of d' + R_of f' = R_of d + R_of f /\ Rabs (R_of f') <= / 2.
+Proof. exact fold_half_sound. Qed.
+
 Print Assumptions C07_two_sum_exact.
 Print Assumptions C07_floor.
 Print Assumptions C07_construct.
@@ -259,3 +274,5 @@ Print Assumptions C07_generated_day_frac.
 Print Assumptions C07_generated_from_angles.
 Print Assumptions C07_generated_unary.
 Print Assumptions C07_generated_divmod.
+Print Assumptions C07_fold.
+Print Assumptions C07_unfolded_refuted.
